@@ -29,3 +29,16 @@ prop("C18",
      level_text="Kernel-checked theorems for all sets, all query strings and all call histories (soundness of the set lookup, class cascade, refusal kind, counter budget, once-refused-always-refused), about a hand model tied to the real functions by an exhaustive bounded + random differential",
      level_note="Trusted: Lean kernel; model<->code correspondence is sampled/exhaustive-bounded, not proved; realPath is a parameter; query paths absolute-or-empty (proved necessary by a witness)",
      technique="Lean 4 proof by induction (dirname walk invariant; induction over call histories) + differential correspondence")
+
+prop("C09",
+     trusted_base=["Go-lite interpreter (lean/GoSandbox/GoLite/Exec.lean) as the semantics of the translated Go subset, cross-checked against the compiled functions on every 16-bit wait status (in-process differential through the verif hooks)",
+                   "Kernel/WaitStatus.lean: the wait-status encoding and Go's WaitStatus accessors (validated by the real runs)",
+                   "the README status table transcribed in Spec/StatusTable.lean"],
+     assumptions=["usage under the runner's bounds (the over-limit arms are C08)",
+                  "a child of the program receiving SIGXCPU/SIGXFSZ ends a ptrace run as TLE/OLE (C08 reading), not treated as a C09 violation",
+                  "namespace runner: the program is pid 1 of its pid namespace; the kernel only lets exits, host SIGKILL and forced (fault) signals end it, so real runs cover those; the theorem covers every signal number"],
+     not_covered="kernel wait-status encoding and ptrace stop semantics are modelled (Kernel/WaitStatus.lean) and sampled by real runs, not proved",
+     level_text="The three classifiers are regenerated from /repo as Go-lite terms on every run and evaluated in the Lean kernel (decide +kernel) on the complete finite domain: every exit code 0..255 and every signal 1..64 with and without core dump, main and child pids; plus delivery of every fatal signal at its ptrace stop and non-empty explanations for Runner Error. Real runs of probe programs under all three runners cover the whole producible domain.",
+     level_note="Trusted: Lean kernel; the extract translator + Go-lite interpreter (differentially validated against the compiled code on all 65536 wait-status patterns); wait-status encoding model; README table transcription",
+     technique="Lean 4 kernel evaluation (decide +kernel) of regenerated Go-lite code over the whole finite domain + differential + exhaustive real runs",
+     timeout={"quick": 1500, "thorough": 3600})
